@@ -111,7 +111,7 @@ add("C02", 'xenum', 'exploration',
     'DESIGN.md 4 C02, 9.2')
 
 add("C16", 'xenum+seqx', 'model_checking',
-    'exhaustive enumeration of argument placements (every byte-slice argument of 51 exported operations x spare capacity {0,1,16,64,512} x fill {00,AA,FF} in guarded buffers; every truncation of every peer message with its genuine tail lying behind it in the same buffer) the caller's request / nonce / blind lists after later calls; every ecdsa operation taking *big.Int values or key objects (incl. blinding keys above the group order) on four curves with all reachable big integers compared before/after and the call repeated on the same objects; plus explicit-state enumeration of call histories (depth 3/4 over 10 operations) on one request state / issuer per token type with every hand-out captured and re-compared after every step',
+    'exhaustive enumeration of argument placements (every byte-slice argument of 51 exported operations x spare capacity {0,1,16,64,512} x fill {00,AA,FF} in guarded buffers; every truncation of every peer message with its genuine tail lying behind it in the same buffer); the request, nonce and blind lists of the caller after later calls; every ecdsa operation taking *big.Int values or key objects (incl. blinding keys above the group order) on four curves with all reachable big integers compared before/after and the call repeated on the same objects; plus explicit-state enumeration of call histories (depth 3/4 over 10 operations) on one request state / issuer per token type with every hand-out captured and re-compared after every step',
     'No operation changes its argument, the spare capacity behind it or the guard bytes, and its result is independent of capacity, fill and of what lies behind a truncated message; request fields, encodings, issuer responses and tokens handed out earlier keep their bytes across finalize (valid and invalid), evaluate, verify, marshal and re-use of the request object as a decoder; overwriting returned tokens does not disturb later calls.',
     'Operations are exercised with honest argument values; memory reachable only through unexported fields is observed indirectly (through later results).',
     'DESIGN.md 4 C16, 9.2b')
